@@ -50,7 +50,9 @@ def visit(F, rep, rule="VISIT-tc"):
     rep.floor(rule, "child fields", v.children_checked, 30)
     # resolver Type fold of the checker
     v2 = Visit(F, rep, rule, {TC + "inner_resolve_type", TC + "resolve_constraint"}, [NR + "Type"],
-               lambda vp, f, t: ty_mentions(t, ["name_resolution::Type"]) or "TypeConstraint" in t, {})
+               lambda vp, f, t: ty_mentions(t, ["name_resolution::Type"]) or "TypeConstraint" in t,
+               {("UserType", "1"): "type arguments are resolved in the Blob/Enum arm; the Unknown arm (a type still being declared: "
+                                   "recursive types, reported elsewhere) deliberately skips them"})
     v2.run_fn(F.fn(TC + "inner_resolve_type"))
     return v
 
@@ -430,7 +432,16 @@ def run(F, rep, tier):
     import c02
     c02.copy_structure(F, rep)
     unification_core(F, rep)
+    pairing(F, rep)
     tc.dropped_results(F, rep, "DROPPED-ERROR", ["sylt_compiler::typechecker::", "sylt_compiler::name_resolution::", "sylt_compiler::dependency::"])
+
+
+def pairing(F, rep):
+    """operator constraints live on both operands; blob field sets are compared in both directions"""
+    n = tc.operand_pairing(F, rep, "OPERAND-PAIR", [F.fn(TC + "expression"), F.fn(TC + "statement")])
+    rep.floor("OPERAND-PAIR", "paired operator constraint sites", n, 22)
+    n = tc.field_set_agreement(F, rep, "FIELD-SETS", F.fn(TC + "sub_unify"))
+    rep.floor("FIELD-SETS", "blob/blob rows", n, 1)
 
 
 def unification_core(F, rep, rule="UNIFY-CORE"):
